@@ -24,6 +24,7 @@ structure PE where
   prio : Int
   cfg : Cfg
   p : Proc := {}
+  gen : Nat := 0       -- which incarnation of the process object this is (a re-added group gets new objects)
 deriving Repr
 
 inductive Rpc
@@ -272,7 +273,7 @@ def rpcOne (r : Rpc) : M := sguard fun s =>
       if (s.procs.filter (·.gid == gid)).isEmpty then semit (.answer id faultBAD_NAME false) s
       else semit (.answer id faultALREADY_ADDED false) s
     else
-      { s with procs := s.procs ++ (s.dormant.filter (·.gid == gid)).map (fun e => { e with p := {} }),
+      { s with procs := s.procs ++ (s.dormant.filter (·.gid == gid)).map (fun e => { e with p := {}, gen := e.gen + 1 }),
                dormant := s.dormant.filter (·.gid != gid) } |> semit (.answer id faultSUCCESS false)
   | .removeGroup id gid =>
     if Sv.ilt s.mood moodRUNNING then semit (.answer id faultSHUTDOWN_STATE false) s
@@ -400,11 +401,16 @@ def pollAll : M := sguard fun s =>
 /-- `for group in pgroups: group.transition()`: groups by ascending priority (stable), members in
     configuration order; in which a pass transitions the processes: `pgroups` is computed at the top of the loop
     iteration, i.e. before this pass's RPCs could add or remove a group -/
-def transitionOrder (s : Sup) : List Nat :=
-  (sortedGroups s).flatMap fun g => (members s.procs g.1).map (·.name)
+def transitionOrder (s : Sup) : List (Nat × Nat) :=
+  (sortedGroups s).flatMap fun g => (members s.procs g.1).map (fun e => (e.name, e.gen))
 
-def transitions (order : List Nat) : M := sguard fun s =>
-  order.foldl (fun acc n => procTransition n acc) s
+/-- only group objects that are still in the process table are transitioned (fix F41): a group removed
+    — or removed and added again — during this pass is skipped -/
+def transitions (order : List (Nat × Nat)) : M := sguard fun s =>
+  order.foldl (fun acc ng =>
+    match findPE acc.procs ng.1 with
+    | some e => if e.gen == ng.2 then procTransition ng.1 acc else acc
+    | none => acc) s
 
 /-- **one pass of `runforever()`**, cut at the poll point (the main-loop boundary): what happens
     from one `poll()` to the next — read events (RPCs), write events (deferred answers),
